@@ -405,7 +405,7 @@ func verifyExclusionFacts(p *Prog, fi *FuncInfo, missing []string) string {
 		case m == "TypeParam" && fi.Name() == "xtype.ZeroValue":
 			for _, cs := range p.Calls() {
 				f, ok := cs.Callee.(*types.Func)
-				if !ok || f != fi.Obj || cs.Encl == nil || cs.Encl == fi {
+				if !ok || f != fi.Obj || cs.Encl == nil || cs.Encl == fi || p.inRegion("xtype.ZeroValue", cs.Encl) {
 					continue
 				}
 				guarded := p.guardedSite(cs.Encl, cs.Stack, cs.Call, func(info *types.Info, g Guard) bool {
